@@ -725,6 +725,10 @@ class SamplingMethod(DirectMethod):
         subst_from += stage._inf_inert.keys()
         subst_to += stage._inf_inert.values()
 
+        # Time runs linearly over the integrator interval: a degree-1 polynomial, written in the same basis
+        subst_from.append(stage.t)
+        subst_to.append(BSpline(basis, self.integrator_grid[k][l] + tscale*DM(range(degree+1))/degree))
+
         # Here, the actual replacement takes place
         c_spline = reinterpret_expr(c, subst_from, subst_to)
 
